@@ -13,7 +13,7 @@ from ..callgraph import CallGraph
 from ..selftest import Seed
 
 META = {
-    "technique": "must-pass-through + order typestate on the write routine, interprocedural constant flow of the sync flag, who-may-write on the set path, must-pass of the cache update in the facade set, who-may-create files reachable from the store facades",
+    "technique": "must-pass-through + order typestate on the write routine, interprocedural constant flow of the sync flag, who-may-write on the set path, must-pass of the cache update in the facade set, who-may-create files reachable from the store facades, complete-write rule for raw file objects",
     "level_text": "Static proof over all paths of the anchored functions of the structural clause: write -> flush -> fsync(f.fileno()) before close on every normal path with the flag true; constant True reaches the flag; the set returns only after result(); only join(root_path, key) is written. Exhaustive over paths and sites, which crash-point sampling cannot be; it does not model the file system.",
     "level_note": "decides the structural clause below from source; does not decide the behaviour. Trusted: POSIX fsync semantics for file data (no directory sync demanded), open('wb') is buffered, Future.result() blocks and re-raises; exception edges are conservative.",
     "explanation": (
